@@ -63,3 +63,14 @@ for d in /verif/seeded/S4-C*; do
   esac
   m $d/patch.diff $p $extra
 done
+# round 5
+for d in /verif/seeded/S5-C*; do
+  s=$(basename $d); p=${s#S5-}; p=${p%%-*}
+  extra=""
+  case $s in
+    S5-C11-1|S5-C11-2) extra="C17";; S5-C12-2) extra="C15";; S5-C13-2) extra="C12";; S5-C18-2) extra="C12";; S5-C15-2) extra="C04";;
+    S5-C01-1) extra="C06";; S5-C02-2) extra="C01";; S5-C06-2) extra="C02";; S5-C19-2) extra="C14";; S5-C03-2) extra="C11";; S5-C04-1) extra="C15";;
+  esac
+  m $d/patch.diff $p $extra
+done
+m REVERT:6b18328 C15 C16
